@@ -13,6 +13,7 @@ pub fn run(name: &str) {
             "merge_null" => merge_null().await,
             "del_null" => del_null().await,
             "validate" => validate_probe().await,
+            "flags" => flags_probe().await,
             "btree_range" => btree_range_probe().await,
             "c16_limit" => c16_limit_probe().await,
             "merge_partial" => merge_partial().await,
@@ -230,4 +231,24 @@ pub async fn validate_probe() {
         }
     }
     println!("validate: {:?}", w.ds.validate().await.map_err(|e| e.to_string()));
+}
+
+
+/// prints the stable-row-id flag and the fragments' row id metadata of every version of a replayed history
+pub async fn flags_probe() {
+    let path = std::env::var("VERIF_PROBE_FILE").unwrap();
+    let input: crate::props::hist::HistInput = crate::engine::read_replay(std::path::Path::new(&path)).unwrap();
+    let store = VStore::new();
+    let mut w = World::create(store, "t", &input.cfg, &input.initial, input.init_file_rows as usize).await.unwrap();
+    let mut obs = crate::engine::Obs::default();
+    for s in &input.steps {
+        let r = w.apply(s, &mut obs).await;
+        println!("{} stale={:?} -> {:?}", s.op.kind(), s.stale.is_some(), r.as_ref().map(|_| ()).map_err(|f| f.kind.clone()));
+    }
+    let latest = w.ds.latest_version_id().await.unwrap();
+    for v in 1..=latest {
+        let d = w.ds.checkout_version(v).await.unwrap();
+        let m = d.manifest();
+        println!("v{v}: uses_stable_row_ids={} reader_flags={} next_row_id={} frags={:?}", m.uses_stable_row_ids(), m.reader_feature_flags, m.next_row_id, m.fragments.iter().map(|f| (f.id, f.physical_rows, f.row_id_meta.is_some())).collect::<Vec<_>>());
+    }
 }
